@@ -1,5 +1,6 @@
 import Casm.Model.Assemble
 import Casm.Proofs.SymbolLemmas
+import Casm.Proofs.FrontEndLemmas
 /-!
 # C15 — symbols resolve lexically and independently of declaration order
 
@@ -25,6 +26,10 @@ About `Casm.SymMgr` (model of `util::SymbolManager`) and its use by `evalVariabl
   gets the path `ctx.take level ++ [n]`; `paths_are_unique`.
   Together: a bare name is global, one dot = child of the enclosing depth-0 declaration, `k`
   dots = child of the enclosing declaration `k-1` levels deep, dotted paths descend from there.
+  `assembler_table_is_built` / `reference_denotes_path_in_assembler` — the table the front end
+  hands to the resolver *is* such a table (proved through the parser-to-resolver pipeline:
+  `collect` declares in the root context or in the context of the last symbol met, functions in
+  the root), so the scope rule holds of every reference the resolver evaluates.
 
 Finding F16: the context follows every symbol declaration, not only labels (so "enclosing
 label" reads "enclosing symbol"); the theorems are about the context as the code maintains it.
@@ -157,6 +162,21 @@ theorem later_declarations_do_not_rebind (m m' : SymMgr) (hb : Built m) (ctx nam
     · exact Or.inl h0
     · exact Or.inr ⟨i, by omega, by rw [hold i hi]; exact hc⟩
   exact (reference_denotes_path m' hb' uctx ulevel upath r huctx' hul hup).mpr ⟨by omega, by rw [hold r hr]; exact hrc⟩
+
+/-- **the table every successful front end hands to the resolver is a `Built` table** -/
+theorem assembler_table_is_built (opts : Opts) (fs : SrcFiles) (roots : List (List Char)) (st : Static) (nodes : List AstNode) (defs : Defs)
+    (h : frontEnd opts fs roots = .ok (st, nodes, defs)) : Built st.decls.symbols :=
+  frontEnd_built opts fs roots st nodes defs h
+
+/-- **the scope rule, for the assembler's own table** -/
+theorem reference_denotes_path_in_assembler (opts : Opts) (fs : SrcFiles) (roots : List (List Char)) (st : Static) (nodes : List AstNode)
+    (defs : Defs) (h : frontEnd opts fs roots = .ok (st, nodes, defs))
+    (ctx : List String) (level : Nat) (path : List String) (r : Nat)
+    (hctx : ctx = [] ∨ ∃ i, i < st.decls.symbols.decls.length ∧ (st.decls.symbols.decls.getD i default).ctx = ctx)
+    (hl : level ≤ ctx.length) (hp : path ≠ []) :
+    st.decls.symbols.tryGetByName ctx level path = some r ↔
+      r < st.decls.symbols.decls.length ∧ (st.decls.symbols.decls.getD r default).ctx = ctx.take level ++ path :=
+  reference_denotes_path _ (assembler_table_is_built opts fs roots st nodes defs h) ctx level path r hctx hl hp
 
 /-! non-vacuity: a small table -/
 def demo : SymMgr :=
